@@ -169,6 +169,7 @@ def grid_module(ctx, h, tag, rows, mode, flavours, dist, nontrivial, samples, te
     for fl in flavours:
         exe = build_flavour(m, fl)
         outs[fl] = run_c(m, exe, calls, mode)
+    m.exes = dict((f, "drv_" + f.replace("-", "_")) for f in flavours)
     dist["rows_" + tag] = len(m.rows)
     dist["calls_" + tag] = len(calls)
     for i, (r, args) in enumerate(calls):
@@ -187,20 +188,172 @@ def grid_module(ctx, h, tag, rows, mode, flavours, dist, nontrivial, samples, te
     return m, calls, ref, outs
 
 
-def run(ctx):
-    h = ctx.build_harness("c03")
-    rows = R.all_rows()
-    dist, nontrivial, samples = {}, set(), []
-    quickfl = ["gcc-O0"]
-    fl = quickfl + (["clang-O2-ubsan", "gcc-O2"] if ctx.tier == "thorough" else [])
-    mods = {}
-    mods["int"] = grid_module(ctx, h, "int", [r for r in rows if r.cls == "int"], "n", fl, dist, nontrivial, samples)
-    mods["float"] = grid_module(ctx, h, "float", [r for r in rows if r.cls in ("float", "const")], "n", fl, dist, nontrivial, samples)
-    mods["mem"] = grid_module(ctx, h, "mem", [r for r in rows if r.cls == "mem"], "m", fl, dist, nontrivial, samples)
-    mods["grow"] = grid_module(ctx, h, "grow", R.GROW_ROWS, "g", fl, dist, nontrivial, samples,
-                               text_fn=lambda rs: R.grow_module_text() if len(rs) == len(R.GROW_ROWS) else
-                               "(module\n  (memory 1 %d)\n%s\n)\n" % (R.GROW_MAX, "\n".join("  " + r.wat() for r in rs)),
-                               pages=1, maxpages=R.GROW_MAX)
-    cov = {"evaluations": sum(v for k, v in dist.items() if k.startswith("calls_")), "distinct_nontrivial": len(nontrivial),
-           "rule": "distinct (instruction, operand class, wasm outcome kind) triples over the boundary grid", "samples": samples, "distribution": dist}
-    return ctx.finish("translation_validation", cov, assumptions=[], trusted_base=[])
+# ------------------------------------------------------------------ hand-written control-flow modules (corpus/C03/*.wat)
+class CF:
+    """an exported function of a corpus module"""
+    def __init__(self, name, params, result):
+        self.name, self.params, self.result = name, params, result
+        self.key, self.ins, self.cls = "ctl." + name, name, "ctl"
+
+
+CORPUS_MODULES = {
+    "ctl": ([CF("fib", ["i32"], "i32"), CF("fact", ["i64"], "i64"), CF("switch", ["i32"], "i32"), CF("blockval", ["i32"], "i32"),
+             CF("indirect", ["i32", "i32", "i32"], "i32"), CF("global", ["i32"], "i32"), CF("tee", ["i32"], "i32"),
+             CF("sum", ["i32", "i32"], "i32"), CF("unreachable", ["i32"], "i32"), CF("nested_loop", ["i32"], "i32")],
+            {"fib": [(0,), (1,), (2,), (10,), (40,)], "fact": [(0,), (1,), (5,), (20,)],
+             "switch": [(0,), (1,), (2,), (3,), (4,), (0xffffffff,), (0x80000000,)],
+             "blockval": [(0,), (5,), (6,), (0x7fffffff,), (0x80000000,)],
+             "indirect": [(0, 4, 5), (1, 4, 5), (2, 4, 5), (3, 4, 5), (4, 4, 5)],
+             "global": [(3,), (0,), (100,)], "tee": [(4,), (0,), (0xffffffff,)],
+             "sum": [(16, 16), (16, 21), (16, 40), (0, 100), (21, 37)], "unreachable": [(0,), (1,), (2,)],
+             "nested_loop": [(0,), (1,), (9,), (40,)]}),
+    "multi_same": ([CF("multi", ["i32", "i32"], "i32"), CF("multi_ret", ["i32", "i32"], "i32")],
+                   {"multi": [(1, 2), (0, 0), (100, 7)], "multi_ret": [(1, 2), (0, 0), (100, 7)]}),
+    "multi_mixed": ([CF("multi", ["i32", "i64"], "i64")], {"multi": [(3, 10), (0, 0)]}),
+}
+
+
+def ctl_class(tag, f, args, ref):
+    if f.name == "indirect":
+        return {3: "call_indirect:type-mismatch", 4: "call_indirect:null-entry"}.get(args[0], "call_indirect:valid")
+    if tag.startswith("multi"):
+        return "multi-value:" + ("explicit-return" if f.name.endswith("_ret") else "fallthrough-return")
+    return "ctl:%s" % f.name
+
+
+def corpus_module(ctx, h, tag, flavours, dist, nontrivial):
+    funcs, callmap = CORPUS_MODULES[tag]
+    d = os.path.join(ctx.tmp, "corpus_" + tag)
+    os.makedirs(d, exist_ok=True)
+    src = os.path.join(vlib.VERIF, "corpus", "C03", tag + ".wat")
+    shutil.copy(src, os.path.join(d, "mod.wat"))
+    wat = open(src).read()
+    rc, out, _ = _run_in(h, ["wat2c", "mod.wat", PREFIX, "mod.c", "mod.h"], d)
+    calls = [(f, a) for f in funcs for a in callmap[f.name]]
+    dist["calls_corpus_" + tag] = len(calls)
+    m = Mod()
+    m.tag, m.dir, m.rows, m.index = tag, d, funcs, dict((f.name, i) for i, f in enumerate(funcs))
+    ref = run_ref(ctx, h, m, calls, "n")
+    if rc != 0:
+        key = "multi-value:fallthrough-return" if tag.startswith("multi") else "ctl:%s:translation-fails" % tag
+        ctx.violation(key, "wat2c fails on corpus module %s.wat (%s) although the embedded runtime runs it: f_%s%s -> %s" % (
+            tag, out.strip()[:200], calls[0][0].name, calls[0][1], ref[0]), {"wat": wat, "wat2c": out.strip(), "wasm": ref[:4]})
+        return
+    errs = D.compile_errors(d)
+    if errs:
+        ctx.violation("ctl:%s:c-does-not-compile" % tag, "the C generated for corpus module %s.wat is rejected by gcc: line %d: %s" % (tag, errs[0][0], errs[0][1]),
+                      {"wat": wat, "errors": errs[:5]})
+        return
+    with open(os.path.join(d, "driver.c"), "w") as f:
+        f.write(D.driver_source(funcs, PREFIX, 1, 1, has_memory="(memory" in wat))
+    for fl in flavours:
+        exe = build_flavour(m, fl)
+        res = run_c(m, exe, calls, "n")
+        for (f, args), a, b in zip(calls, ref, res):
+            nontrivial.add((tag, f.name, a.split()[0]))
+            if not agree(f, a, b):
+                dist["disagreements"] = dist.get("disagreements", 0) + 1
+                ctx.violation(ctl_class(tag, f, args, a), "corpus module %s.wat, f_%s(%s): WebAssembly (wazero) gives `%s`, compiled C (%s) gives `%s`" % (
+                    tag, f.name, ", ".join("0x%x" % x for x in args), a, fl, b),
+                    {"wat": wat, "export": "f_" + f.name, "args_hex": [hx(x) for x in args], "wasm": a, "c": {fl: b}})
+
+
+# ------------------------------------------------------------------ whole modules produced by the real Wa compiler
+HOST_C = r"""
+#include <stdint.h>
+#include <stdio.h>
+#include <stdlib.h>
+#include <string.h>
+#include "mod.h"
+/* host side of the syscall_js imports, printing exactly what internal/wazero/js.go prints (floats: bit patterns are not compared) */
+static uint8_t *MEM;
+void app_memory_init(uint8_t **pp, int32_t *pages) {
+  MEM = calloc((size_t)app_memory_init_max_pages, 65536);
+  *pp = MEM; *pages = app_memory_init_pages;
+}
+void app_syscall_js_print_bool(int32_t v) { fputs(v ? "true" : "false", stdout); }
+void app_syscall_js_print_i32(int32_t v) { printf("%d", v); }
+void app_syscall_js_print_u32(int32_t v) { printf("%u", (uint32_t)v); }
+void app_syscall_js_print_i64(int64_t v) { printf("%lld", (long long)v); }
+void app_syscall_js_print_u64(int64_t v) { printf("%llu", (unsigned long long)v); }
+void app_syscall_js_print_ptr(int32_t v) { printf("0x%x", (uint32_t)v); }
+void app_syscall_js_print_f32(float v) { printf("<f32>"); }
+void app_syscall_js_print_f64(double v) { printf("<f64>"); }
+void app_syscall_js_print_position(int32_t v) { printf("-"); }
+void app_syscall_js_print_rune(int32_t c) {
+  uint32_t u = (uint32_t)c;
+  if (u < 0x80) putchar(u);
+  else if (u < 0x800) { putchar(0xc0 | (u >> 6)); putchar(0x80 | (u & 63)); }
+  else if (u < 0x10000) { putchar(0xe0 | (u >> 12)); putchar(0x80 | ((u >> 6) & 63)); putchar(0x80 | (u & 63)); }
+  else { putchar(0xf0 | (u >> 18)); putchar(0x80 | ((u >> 12) & 63)); putchar(0x80 | ((u >> 6) & 63)); putchar(0x80 | (u & 63)); }
+}
+void app_syscall_js_print_str(int32_t ptr, int32_t len) { fwrite(MEM + (uint32_t)ptr, 1, (uint32_t)len, stdout); }
+void app_syscall_js_proc_exit(int32_t code) { fflush(stdout); exit(code); }
+int main(void) { app_init(); app_main(); fflush(stdout); return 0; }   /* = appbuild's assets/native.cpp */
+"""
+
+
+def whole_program(ctx, h, name, path, flavours):
+    """returns dict(status=..., detail=...) ; status: ok | skipped:<why> | differs | c-error | ub"""
+    d = os.path.join(ctx.tmp, "prog_" + name)
+    os.makedirs(d, exist_ok=True)
+    shutil.copy(path, os.path.join(d, "main.wa"))
+    rc, out, _ = _run_in(h, ["build", "main.wa", "mod.wat"], d, timeout=600)
+    if rc != 0:
+        return {"status": "skipped:compiler-rejects", "detail": out[-300:]}
+    main_fn = out.strip().splitlines()[-1]
+    rc, ref, _ = _run_in(h, ["runwat", "mod.wat", main_fn], d, timeout=600)
+    if rc != 0:
+        return {"status": "skipped:runtime-error-on-wazero", "detail": ref[-300:]}
+    rc, out, _ = _run_in(h, ["wat2c", "mod.wat", PREFIX, "mod.c", "mod.h"], d, timeout=600)
+    if rc != 0:
+        return {"status": "c-error", "kind": "translation-fails", "detail": out.strip()[:400], "wasm_out": ref}
+    errs = D.compile_errors(d)
+    if errs:
+        stmt = open(os.path.join(d, "mod.c")).read().splitlines()[errs[0][0] - 1].strip()
+        return {"status": "c-error", "kind": "c-does-not-compile", "detail": "%s  [%s]" % (errs[0][1], stmt), "wasm_out": ref}
+    with open(os.path.join(d, "host.c"), "w") as f:
+        f.write(HOST_C)
+    res = {"status": "ok", "wasm_out": ref, "c_out": {}}
+    for fl in flavours:
+        exe = "prog_" + fl.replace("-", "_")
+        ok, log = D.compile_c(d, fl, exe, sources=("mod.c", "host.c"))
+        if not ok:
+            raise vlib.InfraError("compiling whole module %s with %s failed:\n%s" % (name, fl, log[-2000:]))
+        env = dict(os.environ, UBSAN_OPTIONS="print_stacktrace=0:halt_on_error=1")
+        try:
+            p = subprocess.run([os.path.join(d, exe)], cwd=d, stdout=subprocess.PIPE, stderr=subprocess.PIPE, text=True, timeout=300, env=env)
+            cout, cerr, crc = p.stdout, p.stderr, p.returncode
+        except subprocess.TimeoutExpired:
+            cout, cerr, crc = "", "timeout", -1
+        res["c_out"][fl] = cout
+        if "runtime error:" in cerr:
+            res.setdefault("ub", {})[fl] = cerr.split("runtime error:")[1].splitlines()[0].strip()
+        if cout != ref or crc != 0:
+            if res["status"] == "ok":
+                res["status"] = "ub" if fl in res.get("ub", {}) else "differs"
+                res["detail"] = "%s: exit %d, first differing line %r vs wasm %r" % (
+                    fl, crc, next((a for a, b in zip(cout.splitlines() + [""], ref.splitlines() + [""]) if a != b), ""),
+                    next((b for a, b in zip(cout.splitlines() + [""], ref.splitlines() + [""]) if a != b), ""))
+    return res
+
+
+def shipped_host_links(ctx, prog_dir):
+    """link the translated module against appbuild's own assets (native.cpp + native-js-host.cpp), the way the generated CMakeLists does"""
+    d = os.path.join(ctx.tmp, "shipped")
+    os.makedirs(d, exist_ok=True)
+    assets = os.path.join(vlib.REPO, "internal", "app", "appbuild", "assets")
+    shutil.copy(os.path.join(prog_dir, "mod.c"), os.path.join(d, "wa-app.c"))
+    shutil.copy(os.path.join(prog_dir, "mod.h"), os.path.join(d, "wa-app.h"))
+    shutil.copy(os.path.join(assets, "native.cpp"), os.path.join(d, "main.cpp"))
+    pages = re.search(r"memory_init_max_pages = (\d+);", open(os.path.join(prog_dir, "mod.c")).read()).group(1)
+    with open(os.path.join(d, "native-host.cpp"), "w") as f:
+        f.write(open(os.path.join(assets, "native-js-host.cpp")).read().replace("{{.MemoryBytes}}", "%s*(1<<16)" % pages))
+    cmds = [["gcc", "-O0", "-w", "-c", "wa-app.c"], ["g++", "-O0", "-w", "-c", "main.cpp", "native-host.cpp"],
+            ["g++", "-o", "myapp", "main.o", "native-host.o", "wa-app.o", "-lm"]]
+    for c in cmds:
+        p = subprocess.run(c, cwd=d, stdout=subprocess.PIPE, stderr=subprocess.STDOUT, text=True, timeout=600)
+        if p.returncode != 0:
+            return False, " ".join(c[:2]) + ": " + " | ".join(l for l in p.stdout.splitlines() if "undefined reference" in l or "error" in l)[:600]
+    p = subprocess.run([os.path.join(d, "myapp")], cwd=d, stdout=subprocess.PIPE, stderr=subprocess.STDOUT, text=True, timeout=120)
+    return True, p.stdout
